@@ -17,10 +17,37 @@
 #include "esl_sqio.h"
 #include "esl_ssi.h"
 #include "esl_getopts.h"
+#include "esl_msa.h"
+#include "esl_msafile.h"
 
 #define main sfetch_main
 #include "miniapps/esl-sfetch.c"
 #undef main
+
+/* the alignment fetch tool, for the second half of C07 (fetch a named alignment from a multi-alignment file) */
+#define main                afetch_main
+#define banner              afetch_banner
+#define usage1              afetch_usage1
+#define usage2              afetch_usage2
+#define usage3              afetch_usage3
+#define options             afetch_options
+#define cmdline_failure     afetch_cmdline_failure
+#define cmdline_help        afetch_cmdline_help
+#define create_ssi_index    afetch_create_ssi_index
+#define multifetch          afetch_multifetch
+#define onefetch            afetch_onefetch
+#include "miniapps/esl-afetch.c"
+#undef main
+#undef banner
+#undef usage1
+#undef usage2
+#undef usage3
+#undef options
+#undef cmdline_failure
+#undef cmdline_help
+#undef create_ssi_index
+#undef multifetch
+#undef onefetch
 
 extern int esl_verif_readbufsize;
 
@@ -208,6 +235,47 @@ static void h_op(void)
     return;
   }
   if (!strcmp(op, "roundtrip")) { if (!sqfp) h_out("closed"); else op_roundtrip(); return; }
+
+  if (!strcmp(op, "afetch")) {
+    /* afetch hex=<multi-alignment Stockholm file> keys=<hex,hex,...>: index it with esl-afetch's create_ssi_index, then for every key
+     * position by key and let the tool regurgitate the entry (absent keys: esl_msafile_PositionByKey status only). */
+    int64_t n; unsigned char *b = h_unhex(h_arg("hex") ? h_arg("hex") : "-", &n); FILE *fp; ESL_MSAFILE *afp = NULL; int saved, nali = 0;
+    char *keys = strdup(h_arg("keys") ? h_arg("keys") : ""), *tok, *sv; char *outb; size_t cap = 64 + 3 * strlen(keys) + 64 * 64, len = 0;
+    ESL_MSA *msa = NULL;
+    close_all();
+    fp = fopen("t.sto", "wb"); fwrite(b, 1, n, fp); fclose(fp); free(b);
+    remove("t.sto.ssi");
+    status = esl_msafile_Open(NULL, "t.sto", NULL, eslMSAFILE_STOCKHOLM, NULL, &afp);
+    if (status != eslOK) { h_out("open-%s", h_status(status)); free(keys); return; }
+    quiet_begin(&saved);
+    afetch_create_ssi_index(NULL, afp);
+    quiet_end(saved);
+    esl_msafile_Close(afp); afp = NULL;
+    status = esl_msafile_Open(NULL, "t.sto", NULL, eslMSAFILE_STOCKHOLM, NULL, &afp);
+    if (status == eslOK) { while ((status = esl_msafile_Read(afp, &msa)) == eslOK) { nali++; esl_msa_Destroy(msa); msa = NULL; } esl_msafile_Close(afp); afp = NULL; }
+    status = esl_msafile_Open(NULL, "t.sto", NULL, eslMSAFILE_STOCKHOLM, NULL, &afp);
+    if (status != eslOK || esl_ssi_Open("t.sto.ssi", &(afp->ssi)) != eslOK) { h_out("reopen-failed"); if (afp) esl_msafile_Close(afp); free(keys); return; }
+    outb = malloc(cap + strlen(keys) * 8);
+    len += sprintf(outb + len, "ok nali=%d r=", nali);
+    for (tok = strtok_r(keys, ",", &sv); tok; tok = strtok_r(NULL, ",", &sv)) {
+      int64_t kn; char *k = (char *) h_unhex(tok, &kn);
+      status = esl_msafile_PositionByKey(afp, k);
+      if (status == eslOK) {
+        FILE *ofp = tmpfile(); int64_t on; uint64_t h = 0xcbf29ce484222325ULL; int c;
+        afetch_onefetch(NULL, ofp, eslMSAFILE_STOCKHOLM, k, afp);     /* positions again and regurgitates the entry */
+        fflush(ofp); on = ftell(ofp); rewind(ofp);
+        while ((c = fgetc(ofp)) != EOF) h = (h ^ (uint64_t)(unsigned char) c) * 0x100000001b3ULL;
+        fclose(ofp);
+        len += sprintf(outb + len, "%s:ok:%" PRIu64 ":%" PRId64 ",", tok, h, on);
+      } else len += sprintf(outb + len, "%s:%s:0:0,", tok, h_status(status));
+      free(k);
+    }
+    h_out("%s", outb);
+    free(outb); free(keys);
+    esl_msafile_Close(afp);
+    remove("t.sto"); remove("t.sto.ssi");
+    return;
+  }
 
   /* everything below needs an open, live handle */
   if (dead)  { h_out("dead"); return; }
